@@ -147,6 +147,13 @@ func hasNilElement(s ErrSpec) bool {
 type Case struct {
 	Spec      *ErrSpec `json:"spec,omitempty"`
 	BadResult string   `json:"bad_result,omitempty"` // chan func nan cycle badraw
+	// CancelFirst: the handler has its own call cancelled on the server
+	// (CancelRequest), waits for its context to end, and only then returns its
+	// error: the error is still the handler's, not the context's.
+	CancelFirst bool `json:"cancel_first,omitempty"`
+	// ViaCallback: the value or error is produced by the client's OnCallback
+	// handler; the server handler calls back, and passes on what it gets.
+	ViaCallback bool `json:"via_callback,omitempty"`
 }
 
 func jsonEqual(a, b []byte) bool { return refjson.Equal(a, b) }
@@ -175,30 +182,51 @@ func run(t *testing.T, c Case) (v engine.Verdict) {
 			}
 		}()
 		synctest.Test(t, func(t *testing.T) {
-			loc := server.NewLocal(handler.Map{"ok": func(ctx context.Context, req *jrpc2.Request) (any, error) { return "fine", nil },
-				"m": func(ctx context.Context, req *jrpc2.Request) (any, error) {
-					switch c.BadResult {
-					case "chan":
-						return make(chan int), nil
-					case "func":
-						return func() {}, nil
-					case "nan":
-						nan := 0.0
-						return map[string]float64{"x": nan / nan}, nil
-					case "cycle":
-						x := &cyc{}
-						x.Next = x
-						return x, nil
-					case "badraw":
-						return json.RawMessage(`{"a":`), nil
-					case "emptyraw":
-						return json.RawMessage{}, nil
-					case "baderrdata":
-						// an error whose data are not valid JSON: still an error response, same code
-						return nil, &jrpc2.Error{Code: 7, Message: "m", Data: json.RawMessage(`{"a":`)}
+			produce := func(ctx context.Context, req *jrpc2.Request) (any, error) {
+				switch c.BadResult {
+				case "chan":
+					return make(chan int), nil
+				case "func":
+					return func() {}, nil
+				case "nan":
+					nan := 0.0
+					return map[string]float64{"x": nan / nan}, nil
+				case "cycle":
+					x := &cyc{}
+					x.Next = x
+					return x, nil
+				case "badraw":
+					return json.RawMessage(`{"a":`), nil
+				case "emptyraw":
+					return json.RawMessage{}, nil
+				case "baderrdata":
+					// an error whose data are not valid JSON: still an error response, same code
+					return nil, &jrpc2.Error{Code: 7, Message: "m", Data: json.RawMessage(`{"a":`)}
+				}
+				return nil, herr
+			}
+			var lopts *server.LocalOptions
+			m := produce
+			switch {
+			case c.ViaCallback:
+				lopts = &server.LocalOptions{Server: &jrpc2.ServerOptions{AllowPush: true},
+					Client: &jrpc2.ClientOptions{OnCallback: func(ctx context.Context, req *jrpc2.Request) (any, error) { return produce(ctx, req) }}}
+				m = func(ctx context.Context, req *jrpc2.Request) (any, error) {
+					crsp, err := jrpc2.ServerFromContext(ctx).Callback(ctx, "cb", nil)
+					if err != nil {
+						return nil, err
 					}
-					return nil, herr
-				}}, nil)
+					// the callback was answered with a result: say so, whatever it holds
+					return map[string]string{"callback_result": crsp.ResultString()}, nil
+				}
+			case c.CancelFirst && c.BadResult == "":
+				m = func(ctx context.Context, req *jrpc2.Request) (any, error) {
+					jrpc2.ServerFromContext(ctx).CancelRequest(req.ID())
+					<-ctx.Done()
+					return produce(ctx, req)
+				}
+			}
+			loc := server.NewLocal(handler.Map{"ok": func(ctx context.Context, req *jrpc2.Request) (any, error) { return "fine", nil }, "m": m}, lopts)
 			rsp, cerr = loc.Client.Call(context.Background(), "m", nil)
 			if rsp != nil {
 				wire, _ = json.Marshal(rsp)
@@ -316,10 +344,17 @@ func genSpec(t *rapid.T, depth int) ErrSpec {
 
 func genCase(t *rapid.T) Case {
 	if rapid.IntRange(0, 19).Draw(t, "bad") == 0 {
-		return Case{BadResult: rapid.SampledFrom([]string{"chan", "func", "nan", "cycle", "badraw", "emptyraw", "baderrdata"}).Draw(t, "badkind")}
+		return Case{BadResult: rapid.SampledFrom([]string{"chan", "func", "nan", "cycle", "badraw", "emptyraw", "baderrdata"}).Draw(t, "badkind"), ViaCallback: rapid.IntRange(0, 2).Draw(t, "viacb") == 0}
 	}
 	s := genSpec(t, 0)
-	return Case{Spec: &s}
+	c := Case{Spec: &s}
+	switch rapid.IntRange(0, 5).Draw(t, "route") {
+	case 0:
+		c.CancelFirst = true
+	case 1:
+		c.ViaCallback = true
+	}
+	return c
 }
 
 // ---- laws ----------------------------------------------------------------------
